@@ -129,6 +129,17 @@ func buildProvider(c Cell) (core.Provider, string, error) {
 		}
 		path = vkit.WriteMem([]byte(b.String()))
 		conf = map[string]any{"type": "json", "source": map[string]any{"type": "file", "path": path}}
+	case "json-padded":
+		// a file of exactly 2×4096+1 bytes read through a 4 KiB buffer: the last chunk the decoder
+		// sees before each end of file is the final newline alone
+		var b strings.Builder
+		for i := 1; i < c.Entries; i++ {
+			fmt.Fprintf(&b, `{"k": %d}`+"\n", i)
+		}
+		first := `{"k": 0, "pad": "%s"}` + "\n"
+		pad := 2*4096 + 1 - b.Len() - len(fmt.Sprintf(first, ""))
+		path = vkit.WriteMem([]byte(fmt.Sprintf(first, strings.Repeat("x", pad)) + b.String()))
+		conf = map[string]any{"type": "json", "source": map[string]any{"type": "file", "path": path}, "buffer-size": "4KB"}
 	case "json-inline":
 		// the same provider fed from the config itself (source: {type: inline, data: …})
 		var b strings.Builder
@@ -350,7 +361,7 @@ func runEngine(res *vkit.Result, c Cell, p core.Provider, exp int, watchdog time
 	return ""
 }
 
-var kinds = []string{"uri", "uripost", "raw", "jsonline-lines", "jsonline-array", "grpc/json", "http/scenario", "grpc/scenario", "json", "json-inline"}
+var kinds = []string{"uri", "uripost", "raw", "jsonline-lines", "jsonline-array", "grpc/json", "http/scenario", "grpc/scenario", "json", "json-inline", "json-padded"}
 
 func cells(kind string) []Cell {
 	var out []Cell
